@@ -2,9 +2,7 @@
 # MANIFEST.setup_cmd: build the whole Coq development from clean, offline.
 set -e
 cd "$(dirname "$0")/.."
-if grep -rnE '\b(Admitted|admit|Axiom|Parameter|Conjecture|Hypothesis|Variable)\b|Unset Guard|bypass_check|type-in-type|impredicative-set|Admit Obligations|native_compute' coq/theories --include='*.v' | grep -v '^coq/theories/Gen/' ; then
-  echo "forbidden construct in the development" >&2; exit 1
-fi
+python3 tools/lint_coq.py || { echo "forbidden construct in the development" >&2; exit 1; }
 GT=$(PYTHONPATH=/repo PYTHONHASHSEED=0 /venv/bin/python tools/gen_tables.py); echo "$GT"
 case "$GT" in *FAILED*) echo "table generation failed" >&2; exit 1;; esac
 find coq/theories \( -name '*.vo' -o -name '*.vok' -o -name '*.vos' -o -name '*.glob' -o -name '.*.aux' \) -delete
